@@ -275,16 +275,25 @@ impl Uplinks {
                             {
                                 *queued = false;
                                 let synced = std::mem::replace(send_synced, false);
-                                backpressure.prepare_write(&mut buffer);
-                                let action = if synced {
-                                    WriteAction::ValueSynced(true)
+                                // Only emit an event if a value was actually pushed (the entry
+                                // could be for a synced message only or be stale after an unlink).
+                                let had_data = backpressure.has_data();
+                                if had_data {
+                                    backpressure.prepare_write(&mut buffer);
+                                }
+                                let maybe_action = if synced {
+                                    Some(WriteAction::ValueSynced(had_data))
+                                } else if had_data {
+                                    Some(WriteAction::Event)
                                 } else {
-                                    WriteAction::Event
+                                    None
                                 };
-                                let lane_name =
-                                    registry.name_for(lane_id).expect(UNREGISTERED_LANE);
-                                sender.update_lane(lane_name);
-                                break Some(WriteTask::new(sender, buffer, action));
+                                if let Some(action) = maybe_action {
+                                    let lane_name =
+                                        registry.name_for(lane_id).expect(UNREGISTERED_LANE);
+                                    sender.update_lane(lane_name);
+                                    break Some(WriteTask::new(sender, buffer, action));
+                                }
                             }
                         }
                         UplinkKind::Supply => {
@@ -338,7 +347,7 @@ impl Uplinks {
                                             backpressure,
                                         )))),
                                     )
-                                } else {
+                                } else if backpressure.has_data() {
                                     backpressure.prepare_write(&mut buffer);
                                     if backpressure.has_data() {
                                         write_queue.push_back((UplinkKind::Map, lane_id));
@@ -349,6 +358,10 @@ impl Uplinks {
                                         registry.name_for(lane_id).expect(UNREGISTERED_LANE);
                                     sender.update_lane(lane_name);
                                     WriteTask::new(sender, buffer, WriteAction::Event)
+                                } else {
+                                    // Stale queue entry (there is nothing to send).
+                                    *queued = false;
+                                    continue;
                                 };
                                 break Some(write);
                             }
